@@ -2,6 +2,7 @@
 from vlib import *
 import client_check as CC
 import validate_check
+import stream_check as SC
 
 
 def run(ctx):
@@ -15,6 +16,10 @@ def run(ctx):
     found_v = validate_check.run(ctx, 500 if ctx.tier == "quick" else 20000)
     ctx.cov["rule"] += "; plus request validation correspondence: publish/subscribe requests at and around every capability boundary (Maximum QoS, Retain Available, Topic Alias Maximum, Maximum Packet Size, wildcard/shared/identifier availability, malformed strings) through the real client holding a CONNACK with those capabilities, result (packet bytes or immediate error) compared with the Lean Validate model"
     found = found_v or CC.report(ctx, "C15", fails)
+    # the capabilities the validators consult must be the ones the accepted CONNACK carried: real connect_op (with and without an
+    # authenticator, AUTH rounds before the CONNACK) on H-stream
+    found = SC.phase(ctx, "C15", 200 if ctx.tier == "quick" else 5000, 120) or found
+    ctx.cov["rule"] += "; plus H-stream handshakes (real connect_op, 25% with a scripted authenticator and 0-2 AUTH rounds): CONNACK properties and Session Present stored in the context = the CONNACK's"
     report_broken_ties(ctx, found)
     if ctx.tier == "thorough" and not ctx.ties_broken:
         for m, msg in leanchecker(ctx.lean.get("modules", [])):
